@@ -62,6 +62,157 @@ impl Agg {
 }
 
 // ---------------------------------------------------------------------------
+// Signature condensation: one signature per mechanism instead of one per
+// (variant strategy x 2-chain x table profile) that merely inherits it.
+// ---------------------------------------------------------------------------
+
+fn fget<'a>(f: &'a Found, k: &str) -> &'a str {
+    f.sig.iter().find(|(a, _)| a == k).map(|(_, v)| v.as_str()).unwrap_or("")
+}
+fn fset(f: &mut Found, k: &str, v: &str) {
+    for (a, b) in f.sig.iter_mut() {
+        if a == k {
+            *b = v.to_string();
+        }
+    }
+}
+/// kinds that all mean "the rows are not the right rows"
+fn family(kind: &str) -> &str {
+    match kind {
+        "missing-rows" | "extra-rows" | "wrong-rows" | "wrong-aggregate" => "content",
+        k => k,
+    }
+}
+fn base_strategy(s: &str) -> &str {
+    if s.starts_with("push-") {
+        "push"
+    } else if s.starts_with("pull-") {
+        "pull"
+    } else {
+        s
+    }
+}
+fn regroup(v: Vec<(Found, u64)>) -> Vec<(Found, u64)> {
+    let mut a = Agg::default();
+    for (f, n) in v {
+        a.add_n(f, n);
+    }
+    a.m.into_values().collect()
+}
+
+/// `ran`: (layer, chain) -> profiles on which that chain was executed; `pairs`: signature names of all 2-chains.
+fn condense(input: Vec<(Found, u64)>, ran: &BTreeMap<(String, String), std::collections::BTreeSet<String>>, pairs: &[String]) -> Vec<(Found, u64)> {
+    let mut v = input;
+    // 1. a variant strategy (tracked, materialising, spilling, adaptive, ...) failing where the base strategy
+    //    fails on the same chain and profile with the same kind family is explained by the base failure
+    let has = |v: &Vec<(Found, u64)>, layer: &str, strat: &str, chain: &str, profile: &str, fam: &str| v.iter().any(|(g, _)| fget(g, "layer") == layer && fget(g, "strategy") == strat && fget(g, "chain") == chain && fget(g, "profile") == profile && family(fget(g, "kind")) == fam);
+    let snapshot: Vec<(String, String, String, String, String)> = v.iter().map(|(f, _)| (fget(f, "layer").to_string(), fget(f, "strategy").to_string(), fget(f, "chain").to_string(), fget(f, "profile").to_string(), family(fget(f, "kind")).to_string())).collect();
+    let exists = |layer: &str, strat: &str, chain: &str, profile: &str, fam: &str| snapshot.iter().any(|x| x.0 == layer && x.1 == strat && x.2 == chain && x.3 == profile && x.4 == fam);
+    let _ = has;
+    for (f, _) in v.iter_mut() {
+        if fget(f, "layer") != "A-config" {
+            continue;
+        }
+        let (st, ch, pr, fam) = (fget(f, "strategy").to_string(), fget(f, "chain").to_string(), fget(f, "profile").to_string(), family(fget(f, "kind")).to_string());
+        let base = base_strategy(&st).to_string();
+        if base != st && exists("A-config", &base, &ch, &pr, &fam) {
+            let kind = snapshot.iter().position(|x| x.0 == "A-config" && x.1 == base && x.2 == ch && x.3 == pr && x.4 == fam).unwrap();
+            let _ = kind;
+            fset(f, "strategy", &base);
+            f.rank = (usize::MAX, 0); // never the representative
+        }
+    }
+    // after renaming, align kinds inside one family to the representative's kind
+    let v2 = align_kinds(v);
+    // 2. a 2-chain failing where one of its operators alone fails (same strategy, profile, kind family)
+    let snapshot: Vec<(String, String, String, String, String)> = v2.iter().map(|(f, _)| (fget(f, "layer").to_string(), fget(f, "strategy").to_string(), fget(f, "chain").to_string(), fget(f, "profile").to_string(), family(fget(f, "kind")).to_string())).collect();
+    let exists = |layer: &str, strat: &str, chain: &str, profile: &str, fam: &str| snapshot.iter().any(|x| x.0 == layer && x.1 == strat && x.2 == chain && x.3 == profile && x.4 == fam);
+    let mut v = v2;
+    for (f, _) in v.iter_mut() {
+        if fget(f, "layer") != "A-config" {
+            continue;
+        }
+        let ch = fget(f, "chain").to_string();
+        let Some((a, b)) = ch.split_once('>') else { continue };
+        let (st, pr, fam) = (fget(f, "strategy").to_string(), fget(f, "profile").to_string(), family(fget(f, "kind")).to_string());
+        for single in [a, b] {
+            if exists("A-config", &st, single, &pr, &fam) {
+                fset(f, "chain", single);
+                f.rank = (usize::MAX, 0);
+                break;
+            }
+        }
+    }
+    let mut v = align_kinds(v);
+    // 3. every 2-chain with the same first (or second) operator fails: name the operator position
+    for prefix in [true, false] {
+        let mut ops: Vec<String> = pairs.iter().filter_map(|p| p.split_once('>').map(|(a, b)| if prefix { a.to_string() } else { b.to_string() })).collect();
+        ops.sort();
+        ops.dedup();
+        for op in ops {
+            let all: Vec<&String> = pairs.iter().filter(|p| p.split_once('>').is_some_and(|(a, b)| if prefix { a == op } else { b == op })).collect();
+            if all.len() < 3 {
+                continue;
+            }
+            let mut groups: BTreeMap<(String, String, String), Vec<usize>> = BTreeMap::new();
+            for (i, (f, _)) in v.iter().enumerate() {
+                if fget(f, "layer") == "A-config" && all.iter().any(|c| c.as_str() == fget(f, "chain")) {
+                    groups.entry((fget(f, "strategy").to_string(), fget(f, "profile").to_string(), family(fget(f, "kind")).to_string())).or_default().push(i);
+                }
+            }
+            for (_, idx) in groups {
+                let chains: std::collections::BTreeSet<&str> = idx.iter().map(|i| fget(&v[*i].0, "chain")).collect();
+                if chains.len() == all.len() {
+                    let name = if prefix { format!("{op}>*") } else { format!("*>{op}") };
+                    for i in idx {
+                        fset(&mut v[i].0, "chain", &name);
+                    }
+                }
+            }
+        }
+        v = align_kinds(v);
+    }
+    // 4. profiles: "any" when the mechanism shows on every profile the chain was run on
+    let mut groups: BTreeMap<(String, String, String, String), Vec<usize>> = BTreeMap::new();
+    for (i, (f, _)) in v.iter().enumerate() {
+        groups.entry((fget(f, "layer").to_string(), fget(f, "strategy").to_string(), fget(f, "chain").to_string(), fget(f, "kind").to_string())).or_default().push(i);
+    }
+    for ((layer, _, chain, _), idx) in groups {
+        if layer == "A-merge" {
+            continue;
+        }
+        let profs: std::collections::BTreeSet<String> = idx.iter().map(|i| fget(&v[*i].0, "profile").to_string()).collect();
+        let lookup = if let Some(op) = chain.strip_suffix(">*") { pairs.iter().find(|p| p.starts_with(&format!("{op}>"))).cloned().unwrap_or(chain.clone()) } else if let Some(op) = chain.strip_prefix("*>") { pairs.iter().find(|p| p.ends_with(&format!(">{op}"))).cloned().unwrap_or(chain.clone()) } else { chain.clone() };
+        let name = match ran.get(&(layer.clone(), lookup)) {
+            Some(all) if *all == profs && all.len() > 1 => "any".to_string(),
+            _ => profs.iter().cloned().collect::<Vec<_>>().join("+"),
+        };
+        for i in idx {
+            fset(&mut v[i].0, "profile", &name);
+        }
+    }
+    regroup(v)
+}
+/// After signatures were renamed, entries of one (layer,strategy,chain,profile,kind family) take the kind of the smallest case.
+fn align_kinds(v: Vec<(Found, u64)>) -> Vec<(Found, u64)> {
+    let mut best: BTreeMap<(String, String, String, String, String), ((usize, usize), String)> = BTreeMap::new();
+    for (f, _) in &v {
+        let k = (fget(f, "layer").to_string(), fget(f, "strategy").to_string(), fget(f, "chain").to_string(), fget(f, "profile").to_string(), family(fget(f, "kind")).to_string());
+        let e = best.entry(k).or_insert((f.rank, fget(f, "kind").to_string()));
+        if f.rank < e.0 {
+            *e = (f.rank, fget(f, "kind").to_string());
+        }
+    }
+    let mut out = v;
+    for (f, _) in out.iter_mut() {
+        let k = (fget(f, "layer").to_string(), fget(f, "strategy").to_string(), fget(f, "chain").to_string(), fget(f, "profile").to_string(), family(fget(f, "kind")).to_string());
+        let kind = best[&k].1.clone();
+        fset(f, "kind", &kind);
+    }
+    regroup(out)
+}
+
+// ---------------------------------------------------------------------------
 // Part A: configuration product
 // ---------------------------------------------------------------------------
 
@@ -79,7 +230,7 @@ fn pair_chains() -> Vec<Vec<Op>> {
             v.push(model::parse_chain(&format!("{a}>{b}")).unwrap());
         }
     }
-    for s in ["agg-group>sort1", "agg-group>limit:2", "agg-group>having", "sort2>limit:2", "sort2>limit:600", "filter>sort2", "project>sort2"] {
+    for s in ["agg-group>sort1", "agg-group>limit:2", "agg-group>having", "sort2>limit:2", "sort2>limit:600", "filter>sort2", "project>sort2", "filter>having", "having>filter"] {
         v.push(model::parse_chain(s).unwrap());
     }
     v
@@ -448,6 +599,10 @@ fn run(args: vcore::Args) -> i32 {
         }
     }
     let cfg_tables: std::collections::BTreeSet<(String, usize)> = items.iter().map(|i| (i.0.clone(), i.1)).collect();
+    let mut ran: BTreeMap<(String, String), std::collections::BTreeSet<String>> = BTreeMap::new();
+    for (p, _, c, _, _) in &items {
+        ran.entry(("A-config".to_string(), model::chain_sig(c))).or_default().insert(p.clone());
+    }
     if !on("cfg") {
         items.clear();
     }
@@ -483,6 +638,7 @@ fn run(args: vcore::Args) -> i32 {
     let ext = if on("spill") { spillx::ext_cases(thorough) } else { vec![] };
     let outs = vcore::par_map(&ext, cores, |_, c| spillx::run_ext(c, &scratch));
     for (c, o) in ext.iter().zip(outs) {
+        ran.entry(("A-spill".to_string(), c.keys.clone())).or_default().insert(c.profile.clone());
         rep.evaluations += 1;
         if c.n >= 2 && c.run_len > 0 && c.n.div_ceil(c.run_len) >= 2 {
             rep.nontrivial(&("ext", &c.profile, c.n, &c.keys, c.run_len, c.mem_last));
@@ -497,6 +653,7 @@ fn run(args: vcore::Args) -> i32 {
     let parts = if on("spill") { spillx::part_cases(thorough) } else { vec![] };
     let outs = vcore::par_map(&parts, cores, |_, c| spillx::run_part(c, &scratch));
     for (c, o) in parts.iter().zip(outs) {
+        ran.entry(("A-spill".to_string(), "group-accumulate".to_string())).or_default().insert(c.profile.clone());
         rep.evaluations += 1;
         if c.n >= 2 && c.policy != "never" {
             rep.nontrivial(&("part", &c.profile, c.n, c.partitions, &c.policy, c.two_col_key));
@@ -599,6 +756,9 @@ fn run(args: vcore::Args) -> i32 {
     if !on("sched") {
         bunits.clear();
     }
+    for u in &bunits {
+        ran.entry(("B-sched".to_string(), model::chain_sig(&model::parse_chain(&u.chain).unwrap()))).or_default().insert(u.profile.clone());
+    }
     // baseline per (table, chain): one worker
     let mut baselines: BTreeMap<(String, usize, usize, String), Option<Rows>> = BTreeMap::new();
     for u in &bunits {
@@ -691,7 +851,16 @@ fn run(args: vcore::Args) -> i32 {
     rep.assumptions.push("sort keys are homogeneous per column (plus NULL): the comparators of the anchored files return Equal for mixed types, which is not a total order".into());
     rep.assumptions.push("NULL placement of a descending key follows the convention shared by all four sort implementations (flag applied before the direction reversal)".into());
     rep.assumptions.push("ParallelPipeline results are judged after the documented merge phase (merge_sorted_chunks / merge_distinct_results / MergeableAccumulator / concat + global limit)".into());
-    for (_, (f, n)) in agg.m {
+    let raw_signatures = agg.m.len();
+    let pair_names: Vec<String> = {
+        let mut p: Vec<String> = pair_chains().iter().map(|c| model::chain_sig(c)).collect();
+        p.sort();
+        p.dedup();
+        p
+    };
+    let condensed = condense(agg.m.into_values().collect(), &ran, &pair_names);
+    rep.set("failing_signatures_before_condensation", json!(raw_signatures));
+    for (f, n) in condensed {
         rep.violation(f.violation(n));
     }
     rep.finish()
